@@ -254,6 +254,25 @@ def run(tier, seed):
                 ctx.count("roundtrips_ok"); ctx.count("class_" + cls)
                 ctx.nontriv(text)
         ctx.legs.append(leg)
+    # many printed texts read back within ONE source text (a few hundred dotted lists, vectors and lists one after another through one reader): the
+    # list of them prints as the texts joined by single spaces
+    pool = [t for t in seen if len(t) < 200 and '"' not in t and "|" not in t]
+    for pick, label in ((lambda t: " . " in t, "dotted"), (lambda t: t.startswith("#("), "vectors"), (lambda t: True, "mixed")):
+        texts = [t for t in pool if pick(t)]
+        ctx.rng.shuffle(texts)
+        texts = texts[:400]
+        if len(texts) < 50:
+            continue
+        src = "(list %s)" % " ".join("'" + t for t in texts)
+        rec = core.run_jobs([{"id": "c16many", "interps": [{"stdlib": True}], "steps": [{"src": src, "disp": True}], "fuel": 100000}], "dev", timeout=300, tag="c16m")[0]
+        ctx.evaluations += 1
+        k, v = core.outcome(rec["steps"][0]) if rec and "steps" in rec else ("missing", None)
+        want = "(" + " ".join(texts) + ")"
+        if k != "ok" or v.get("disp") != want:
+            ctx.violation({"what": "printed texts that read back one by one do not read back when %d of them stand in one source text" % len(texts), "kind": "many-in-one-source", "class": label,
+                           "observed": (v if k != "ok" else "another value"), "dedupe": "many|" + label}, {"expr": src[:5000]})
+        else:
+            ctx.count("texts_read_back_in_one_source", len(texts))
     formerly_cyclic(ctx)
     for e in exprs[:2] + exprs[-3:]:
         ctx.sample({"expr": e})
